@@ -163,7 +163,7 @@ def theorems_in(path):
     """[(name, line)] of theorems declared in a Props file (comment-stripped)."""
     src = strip_lean_comments(open(path).read())
     res = []
-    for m in re.finditer(r"^\s*(?:private\s+|protected\s+)?theorem\s+([A-Za-z_][\w.']*)", src, re.M):
+    for m in re.finditer(r"^\s*(?:private\s+|protected\s+)?theorem\s+([A-Za-z_][\w.'?!]*)", src, re.M):
         res.append((m.group(1), src.count("\n", 0, m.start()) + 1))
     return res
 
@@ -236,6 +236,7 @@ HARNESSES = {
     "arith": dict(opt="-O1"),
     "literal": dict(opt="-O1"),
     "file": dict(opt="-O1"),
+    "json": dict(opt="-O1", sanitize=True, compiler="clang++-14", flags=["-fno-sanitize=signed-integer-overflow"]),
     "stl": dict(opt="-O1", sanitize=True, compiler="clang++-14"),
 }
 
